@@ -99,51 +99,11 @@ func c03DerivedSeeds(r *vReport, cats []*vCatalogue) []*c03Seed {
 	return out
 }
 
-// c03SiblingVariations produces, for every scalar position q of a maximal seed and each of a few
-// replacement values of another type (number, bool, null, empty, an expression of type any / of
-// type string), the seed with q replaced — kept when it still lints clean — in which the scalars
-// of the same container (the other elements of q's sequence, the other values of q's mapping) are
-// mutated: whether a value is checked must not depend on the type or form of its neighbours.
+// c03SiblingVariations wraps vSiblingVariations (lib_catalogue.go) as seeds of this check.
 func c03SiblingVariations(cats []*vCatalogue, skipped *int) []*c03Seed {
-	values := []string{"1", "true", "null", "''", "'${{ fromJSON(vars.X) }}'", "'${{ github.sha }}'"}
-	container := func(path string) string {
-		if strings.HasSuffix(path, "]") {
-			return path[:strings.LastIndex(path, "[")]
-		}
-		if i := strings.LastIndex(path, "."); i >= 0 {
-			return path[:i]
-		}
-		return ""
-	}
 	var out []*c03Seed
-	for _, c := range cats {
-		for _, q := range c.Scalars {
-			cont := container(q.Path)
-			sibs := 0
-			for _, o := range c.Scalars {
-				if o != q && container(o.Path) == cont {
-					sibs++
-				}
-			}
-			if sibs == 0 || cont == "" {
-				continue
-			}
-			for vi, v := range values {
-				src := c.Replace(q, v)
-				res := vLint(src, nil)
-				if res.Panic != "" || res.Err != nil || len(res.Errs) > 0 {
-					*skipped++
-					continue
-				}
-				name := fmt.Sprintf("%s<%s=value%d>", c.Seed, q.Path, vi)
-				dc, err := vBuildCatalogue(name, src)
-				if err != nil {
-					*skipped++
-					continue
-				}
-				out = append(out, &c03Seed{name: name, cat: dc, onlyPath: cont, direct: true})
-			}
-		}
+	for _, v := range vSiblingVariations(cats, skipped) {
+		out = append(out, &c03Seed{name: v.Cat.Seed, cat: v.Cat, onlyPath: v.Container, direct: true})
 	}
 	return out
 }
